@@ -22,6 +22,7 @@ import (
 	goast "go/ast"
 	"go/types"
 	"path/filepath"
+	"sort"
 
 	"github.com/goplus/gogen"
 	"github.com/goplus/gogen/packages"
@@ -151,10 +152,14 @@ func (c *Context) ParseFile(file string, src any) (*Package, error) {
 
 func (c *Context) loadPackage(srcDir string, pkgs map[string]*ast.Package) (*Package, error) {
 	mainPkg, ok := pkgs["main"]
-	if !ok {
-		for _, v := range pkgs {
-			mainPkg = v
-			break
+	if !ok { // no main package: pick the first one by name (not by map order)
+		names := make([]string, 0, len(pkgs))
+		for name := range pkgs {
+			names = append(names, name)
+		}
+		sort.Strings(names)
+		if len(names) > 0 {
+			mainPkg = pkgs[names[0]]
 		}
 	}
 	conf := &cl.Config{Fset: c.fset}
